@@ -279,16 +279,21 @@ impl LocalNode {
     ///
     /// Returns the generation (with tag).
     pub(crate) fn new_helping(&self, ptr: usize) -> usize {
-        let node = &self.node.get().expect("LocalNode::with ensures it is set");
+        let mut node = self.node.get().expect("LocalNode::with ensures it is set");
         debug_assert_eq!(node.in_use.load(Relaxed), NODE_USED);
-        let (gen, discard) = node.helping.get_debt(ptr, &self.helping);
-        if discard {
+        if self.helping.wraps_next() {
             // Too many generations happened, make sure the writers give the poor node a break for
             // a while so they don't observe the generation wrapping around.
+            //
+            // This has to happen before the transaction with the wrapped generation starts (none
+            // of ours is in progress on the node now, so it is safe to give it up) and the rest
+            // of the transaction needs a node to confirm on, so continue on another one right
+            // away instead of leaving the thread without any.
             node.start_cooldown();
-            self.node.take();
+            node = Node::get();
+            self.node.set(Some(node));
         }
-        gen
+        node.helping.get_debt(ptr, &self.helping)
     }
 
     /// Confirm the helping transaction.
